@@ -25,6 +25,100 @@ pub open spec fn node_ok(starts: Seq<u16>, edges: Seq<u16>, i: int) -> bool {
     match node_edges_spec(starts, edges, i) { Some(es) => forall|k: int| 0 <= k < es.len() ==> (#[trigger] es[k] as int) < starts.len(), None => false } }
 pub open spec fn graph_ok(starts: Seq<u16>, edges: Seq<u16>) -> bool { forall|i: int| 0 <= i < starts.len() ==> #[trigger] node_ok(starts, edges, i) }
 
+// ---- in-degree bookkeeping (C01): occurrences of c among the first k entries of a child list
+pub open spec fn count_in(s: Seq<u16>, c: u16, k: int) -> int decreases k {
+    if k <= 0 { 0 } else { count_in(s, c, k - 1) + (if k <= s.len() && s[k - 1] == c { 1int } else { 0int }) } }
+pub open spec fn sat_sub_int(a: int, b: int) -> int { if a >= b { a - b } else { 0 } }
+
+// number of edges a -> b (with multiplicity); 0 when a has no valid edge range
+pub open spec fn edge_count(starts: Seq<u16>, edges: Seq<u16>, a: int, b: u16) -> int {
+    match node_edges_spec(starts, edges, a) { Some(es) => count_in(es, b, es.len() as int), None => 0 } }
+// in-degree of b counting only edges from the nodes below i that are still in `dom` (the nodes that have not been emitted yet)
+pub open spec fn indeg(starts: Seq<u16>, edges: Seq<u16>, dom: Set<u16>, b: u16, i: int) -> int decreases i {
+    if i <= 0 { 0 } else { indeg(starts, edges, dom, b, i - 1) + (if dom.contains((i - 1) as u16) { edge_count(starts, edges, i - 1, b) } else { 0 }) } }
+pub proof fn lemma_count_nonneg(s: Seq<u16>, c: u16, k: int) ensures count_in(s, c, k) >= 0 decreases k { if k > 0 { lemma_count_nonneg(s, c, k - 1); } }
+// an element that occurs is counted
+pub proof fn lemma_count_pos(s: Seq<u16>, c: u16, j: int, k: int) requires 0 <= j < k <= s.len(), s[j] == c ensures count_in(s, c, k) >= 1 decreases k {
+    lemma_count_nonneg(s, c, k - 1);
+    if j < k - 1 { lemma_count_pos(s, c, j, k - 1); } }
+pub proof fn lemma_indeg_nonneg(starts: Seq<u16>, edges: Seq<u16>, dom: Set<u16>, b: u16, i: int) ensures indeg(starts, edges, dom, b, i) >= 0 decreases i {
+    if i > 0 { lemma_indeg_nonneg(starts, edges, dom, b, i - 1);
+        match node_edges_spec(starts, edges, i - 1) { Some(es) => lemma_count_nonneg(es, b, es.len() as int), None => {} } } }
+// removing a node from the not-yet-emitted set takes exactly its edges out of every in-degree
+pub proof fn lemma_indeg_remove(starts: Seq<u16>, edges: Seq<u16>, dom: Set<u16>, a: u16, b: u16, i: int)
+    requires dom.contains(a), 0 <= i <= 0x1_0000
+    ensures indeg(starts, edges, dom.remove(a), b, i) == indeg(starts, edges, dom, b, i) - (if (a as int) < i { edge_count(starts, edges, a as int, b) } else { 0 })
+    decreases i
+{
+    if i > 0 {
+        lemma_indeg_remove(starts, edges, dom, a, b, i - 1);
+        let x = (i - 1) as u16;
+        assert(x as int == i - 1);
+        if x == a {} else { assert(dom.remove(a).contains(x) == dom.contains(x)); }
+    }
+}
+// an in-degree of zero means: no edge from any node that is still waiting
+pub proof fn lemma_indeg_zero(starts: Seq<u16>, edges: Seq<u16>, dom: Set<u16>, a: u16, b: u16, i: int)
+    requires dom.contains(a), (a as int) < i <= 0x1_0000, indeg(starts, edges, dom, b, i) == 0
+    ensures edge_count(starts, edges, a as int, b) == 0
+{
+    lemma_indeg_remove(starts, edges, dom, a, b, i);
+    lemma_indeg_nonneg(starts, edges, dom.remove(a), b, i);
+    match node_edges_spec(starts, edges, a as int) { Some(es) => lemma_count_nonneg(es, b, es.len() as int), None => {} }
+}
+// the in-degrees computed from the parent lists are the edge counts over all nodes
+pub proof fn lemma_plist_len(starts: Seq<u16>, edges: Seq<u16>, full: Set<u16>, b: u16, i: int, k: int)
+    requires 0 <= i <= 0x1_0000, 0 <= k, forall|x: u16| (x as int) < i ==> full.contains(x),
+             k > 0 ==> (node_edges_spec(starts, edges, i) is Some && k <= node_edges_spec(starts, edges, i)->Some_0.len())
+    ensures plist(starts, edges, b, i, k).len() == indeg(starts, edges, full, b, i)
+                + (if k > 0 { count_in(node_edges_spec(starts, edges, i)->Some_0, b, k) } else { 0 })
+    decreases i, k
+{
+    if k > 0 {
+        let es = node_edges_spec(starts, edges, i)->Some_0;
+        lemma_plist_len(starts, edges, full, b, i, k - 1);
+        assert(count_in(es, b, 0) == 0);
+        assert(count_in(es, b, k) == count_in(es, b, k - 1) + (if es[k - 1] == b { 1int } else { 0int }));
+        assert(plist(starts, edges, b, i, k) == (if es[k - 1] == b { plist(starts, edges, b, i, k - 1).push(i as u16) } else { plist(starts, edges, b, i, k - 1) }));
+    } else if i > 0 {
+        assert(full.contains((i - 1) as u16));
+        assert(((i - 1) as u16) as int == i - 1);
+        match node_edges_spec(starts, edges, i - 1) {
+            Some(es) => {
+                lemma_plist_len(starts, edges, full, b, i - 1, es.len() as int);
+                assert(count_in(es, b, 0) == 0);
+                assert(edge_count(starts, edges, i - 1, b) == count_in(es, b, es.len() as int));
+                assert(plist(starts, edges, b, i, 0) == plist(starts, edges, b, i - 1, es.len() as int)); },
+            None => {
+                lemma_plist_len(starts, edges, full, b, i - 1, 0);
+                assert(edge_count(starts, edges, i - 1, b) == 0);
+                assert(plist(starts, edges, b, i, 0) == plist(starts, edges, b, i - 1, 0)); } }
+    } else {
+        assert(plist(starts, edges, b, i, 0).len() == 0);
+    }
+}
+
+// ---- level sort (C01): node a is placed in level i of the levels emitted so far
+pub open spec fn level_of(out: Seq<Vec<u16>>, a: u16, i: int) -> bool { 0 <= i < out.len() && out[i]@.contains(a) }
+pub open spec fn emitted(out: Seq<Vec<u16>>, a: u16) -> bool { exists|i: int| #[trigger] level_of(out, a, i) }
+// every edge into a placed node comes from a node placed in a strictly earlier level
+pub open spec fn parents_first(starts: Seq<u16>, edges: Seq<u16>, out: Seq<Vec<u16>>) -> bool {
+    forall|a: u16, b: u16, i: int| #[trigger] level_of(out, b, i) && #[trigger] child_of(starts, edges, a, b) ==> exists|i2: int| i2 < i && #[trigger] level_of(out, a, i2) }
+pub open spec fn placed_once(out: Seq<Vec<u16>>) -> bool {
+    forall|i: int, j: int, i2: int, j2: int| 0 <= i < out.len() && 0 <= j < out[i]@.len() && 0 <= i2 < out.len() && 0 <= j2 < out[i2]@.len()
+        && (#[trigger] out[i]@[j]) == (#[trigger] out[i2]@[j2]) ==> i == i2 && j == j2 }
+// child_of(a, b) means at least one edge a -> b
+pub proof fn lemma_child_edge_count(starts: Seq<u16>, edges: Seq<u16>, a: u16, b: u16)
+    requires child_of(starts, edges, a, b) ensures edge_count(starts, edges, a as int, b) >= 1, (a as int) < starts.len()
+{
+    assert(node_edges_spec(starts, edges, a as int) is Some);
+    let es = node_edges_spec(starts, edges, a as int)->Some_0;
+    assert(es.contains(b));
+    let j = choose|j: int| 0 <= j < es.len() && es[j] == b;
+    lemma_count_pos(es, b, j, es.len() as int);
+    assert(edge_count(starts, edges, a as int, b) == count_in(es, b, es.len() as int));
+}
+
 // ---- parent lists (C01): the parents of node n in ascending order, one entry per edge (multiplicity kept).
 // plist(n, i, k) = entries contributed by all edges of the nodes below i and by the first k edges of node i, in that order.
 pub open spec fn plist(starts: Seq<u16>, edges: Seq<u16>, n: u16, i: int, k: int) -> Seq<u16>
